@@ -292,9 +292,6 @@ func c18CaseRot(r *core.Run, st *c18Store, t *inproc.Transport, sink *inproc.Sin
 	}
 	wit := map[string]any{"store_proofs": amountsOf(st.proofs), "of_which_inactive_keyset": inactiveAmts, "active_keyset": st.active, "fees_ppk": st.feeOf, "amount": amount, "include_fees": fees, "error": fmt.Sprint(serr), "sent": amountsOf(sent)}
 	ppkKey := fmt.Sprintf("ppk=%d", st.feeOf[st.active])
-	if serr != nil && rotateTo >= 0 {
-		return // the completeness premise is stated for a wallet that knows the mint's keysets
-	}
 	if serr != nil {
 		// completeness
 		n := bits.OnesCount64(amount)
